@@ -79,3 +79,15 @@ OPS['selinfos'] = async (js, s, lits) => {
     try { infos = rbql.adhoc_parse_select_expression_to_column_infos(r[1], dec_list(lits)); } catch (e) { const b = bracket_error(e); if (b) return b; throw e; }
     return 'ok ' + infos.map(enc_info).join(' ');
 };
+
+function enc_varmap(d) {
+    const keys = Object.keys(d);
+    if (!keys.length) return 'ok ~';
+    return 'ok ' + keys.map(k => enc_str(k) + '=' + (d[k].initialize ? '1' : '0') + ':' + d[k].index).join(' ');
+}
+OPS['dictvars'] = async (js, pfx, query, names) => { let d = {}; rbql.parse_dictionary_variables(dec_str(query), dec_str(pfx), dec_list(names), d); return enc_varmap(d); };
+OPS['attrvars'] = async (js, pfx, query, names) => {
+    let d = {};
+    try { rbql.parse_attribute_variables(dec_str(query), dec_str(pfx), dec_list(names), 'table header', d); } catch (e) { if (is_parsing_error(e)) return 'err notfound'; throw e; }
+    return enc_varmap(d);
+};
